@@ -1328,6 +1328,10 @@ func runSM(dir string, seed uint64, n int) {
 			max = rg.Intn(2) // probes: a table without seats, a table with one seat
 			o.Count("sm.strata.tiny_table")
 		}
+		if u >= 252 && u < 262 {
+			max = 60 + rg.Intn(80) // "for all table sizes": a hall-sized table (beyond 64 seats: a bit set in a machine word ends here)
+			o.Count("sm.strata.huge_table")
+		}
 		r.newSM(max)
 		pid := 100
 		steps := 6 + rg.Intn(30)
